@@ -52,7 +52,7 @@ def obs_variant(case):
     return {"val": val, "base": base, "checkspan": 0, "s": 0, "e": 0, "xs": 0, "xe": 0}
 
 
-STAGES = {"codepoints": (obs_pre, "PreprocessTrace"), "class-strings": (obs_pre, "PreprocessTrace"),
+STAGES = {"codepoints": (obs_pre, "PreprocessTrace"), "class-strings": (obs_pre, "PreprocessTrace"), "escape-strings": (obs_pre, "PreprocessTrace"),
           "variants": (obs_variant, "VariantTrace")}
 
 SEPS = [" ", "  ", "\t", "\n", ",", ";", ", ", " ; ", " ", " ", "​", "　", "(", ")", "[", "]", "（", "）",
@@ -92,6 +92,18 @@ def run(ctx):
         for cls in itertools.product("SDC", repeat=n):
             cases.append({"cps": [rnd.choice(members[c]) for c in cls]})
     core.run_stage(ctx, "class-strings", cases, obs_pre, "PreprocessTrace", cfg="PreprocessTrace.cfg", sig_keys=(),
+                   nontrivial=lambda c: tuple(c["cps"]))
+    # (b2) strings a decoding / canonicalising library would rewrite: to the normaliser they are ordinary characters and separators
+    esc = ["&amp;", "&nbsp;", "&ndash;", "&mdash;", "&lt;", "&gt;", "&#59;", "&#x3b;", "&#160;", "&#8211;", "&amp;amp;", "&", "&;", "&#;", "&a;",
+           "%20", "%2C", "%3B", "%2D", "%E2%80%93", "%", "%%", "+", "\\n", "\\t", "\\u00a0", "\\x20", "\\", "\\-", "\\,",
+           "\ufb01", "\uff12", "\u2103", "\u00aa", "\u2460", "\u00bd", "\u0132", "\u212b", "e\u0301", "\u00e9", "\u1e9e", "\u0130", "\u017f",
+           "<b>", "</b>", "<br/>", "$1", "${x}", "{0}", "%s", "%d", "\\1", "\\g<0>", "^", "$", ".*", "(?i)", "[a-z]", "a|b", "\u200d", "\u2060"]
+    cases = []
+    for e in esc:
+        for tpl in ("%s", "a%sb", "%s%s", "8 %s 10", "a %s", "%s b", "a,%s;b", "-%s-"):
+            t = tpl.replace("%s", e)
+            cases.append({"cps": [ord(c) for c in t]})
+    core.run_stage(ctx, "escape-strings", cases, obs_pre, "PreprocessTrace", cfg="PreprocessTrace.cfg", sig_keys=(),
                    nontrivial=lambda c: tuple(c["cps"]))
     # (c) end to end variants
     texts = [(t, ts) for t, ts in corpus_texts()]
